@@ -287,12 +287,23 @@ def c07(pid, tier, seed):
     gens = [("u64_visible", "MC_Logical", dict(D=3 if q else 4, Target="spy"), "bfs"),
             ("u64_hidden", "MC_Logical", dict(D=3, Target="hidden"), "bfs"),
             ("u64_deep", "MC_Logical", dict(D=12, Target="spy"), ("sim", 400 if q else 4000, 14))]
-    return generic_check(pid, tier, seed, gens, "api", "Trace_Logical",
+    res = generic_check(pid, tier, seed, gens, "api", "Trace_Logical",
                          "every sequence of D operations over inc/dec/set_position/update/set_length/inc_length/dec_length/unset_length/reset/finish/abandon with arguments from "
                          "{0,1,2,2^32,2^63,MAX-1,MAX}; position()/length()/is_finished()/fraction()/rendered {pos} {len} {percent} checked after every call on exact u64 arithmetic (U64.tla)",
                          ["u64 values are exchanged as five base-2^15 limbs; fraction() is read through ProgressBar::update and scaled by 2^30",
-                          "the concurrent clause (increments from several threads are never lost) is decided by the C08 machinery's atomic-step model, see DESIGN.md"],
+                          "concurrent clause: every sequence of 8 thread choices (Choices.tla) at atomic load/store/rmw granularity under the controlled scheduler (hooks); "
+                          "2-3 threads x 1-2 inc/dec calls on clones"],
                          shards=12)
+    import props_sync
+    sc = props_sync.c07_schedules(pid, tier, seed)
+    cov = res["coverage"]
+    cov["states"] += sc["states"]
+    cov["transitions"] += sc["transitions"]
+    cov["traces_validated_against_impl"] += sc["runs"]
+    cov["records_validated"] += sc["records"]
+    cov["schedule_clause"] = {"runs": sc["runs"], "clause_counts": sc["stats"], "sample": sc["sample"]}
+    res["failures"] += sc["fails"]
+    return res
 
 
 def maximal(seqs):
